@@ -389,16 +389,16 @@ func isErrorType(t types.Type) bool { return types.Identical(t, errorType) }
 
 // nil-preserving wrappers (read and confirmed: each returns nil iff its error argument is nil)
 var nilPreserving = map[string]int{ // full name -> index of the error argument in Args
-	"github.com/pkg/errors.Wrap":                                0,
-	"github.com/pkg/errors.Wrapf":                               0,
-	"github.com/pkg/errors.WithMessage":                         0,
-	"github.com/pkg/errors.WithMessagef":                        0,
-	"github.com/pkg/errors.WithStack":                           0,
-	"(*github.com/spikeekips/mitum/util.baseError).Wrap":        1,
-	"(*github.com/spikeekips/mitum/util.baseError).WithMessage": 1,
-	"(*github.com/spikeekips/mitum/util.IDError).Wrap":          1,
-	"(*github.com/spikeekips/mitum/util.IDError).WithMessage":   1,
-	"mitumfix/util.Wrap":                                        0,
+	"github.com/pkg/errors.Wrap":         0,
+	"github.com/pkg/errors.Wrapf":        0,
+	"github.com/pkg/errors.WithMessage":  0,
+	"github.com/pkg/errors.WithMessagef": 0,
+	"github.com/pkg/errors.WithStack":    0,
+	"(*util.baseError).Wrap":             1,
+	"(*util.baseError).WithMessage":      1,
+	"(*util.IDError).Wrap":               1,
+	"(*util.IDError).WithMessage":        1,
+	"mitumfix/util.Wrap":                 0,
 }
 
 func nilPreservingArg(c *ssa.CallCommon) ssa.Value {
@@ -574,11 +574,33 @@ func (p *Prog) StoresD(fn *ssa.Function, pat string) []ssa.Instruction {
 	return out
 }
 
-// Returns lists all return instructions.
+// RetVal resolves the i-th result of a return: in functions with defers go/ssa spills results into
+// allocs ("defer-spilled returns"); the value stored in the same block just before the return is
+// the returned value.
+func RetVal(r *ssa.Return, i int) ssa.Value {
+	v := r.Results[i]
+	u, ok := v.(*ssa.UnOp)
+	if !ok || u.Op != token.MUL {
+		return v
+	}
+	al, ok := u.X.(*ssa.Alloc)
+	if !ok {
+		return v
+	}
+	instrs := r.Block().Instrs
+	for k := len(instrs) - 1; k >= 0; k-- {
+		if st, ok := instrs[k].(*ssa.Store); ok && st.Addr == al {
+			return st.Val
+		}
+	}
+	return v
+}
+
+// Returns lists all return instructions (the synthetic recover block is excluded).
 func Returns(fn *ssa.Function) []*ssa.Return {
 	var out []*ssa.Return
 	for _, b := range fn.Blocks {
-		if len(b.Instrs) == 0 {
+		if len(b.Instrs) == 0 || b == fn.Recover {
 			continue
 		}
 		if r, ok := b.Instrs[len(b.Instrs)-1].(*ssa.Return); ok {
@@ -609,7 +631,7 @@ func (p *Prog) SuccessReturns(fn *ssa.Function) []ssa.Instruction {
 			out = append(out, r)
 			continue
 		}
-		if p.mayBeNil(fn, r.Results[idx], r, map[ssa.Value]bool{}) {
+		if p.mayBeNil(fn, RetVal(r, idx), r, map[ssa.Value]bool{}) {
 			out = append(out, r)
 		}
 	}
@@ -624,7 +646,7 @@ func (p *Prog) ErrorReturns(fn *ssa.Function) []ssa.Instruction {
 		return nil
 	}
 	for _, r := range Returns(fn) {
-		if idx < len(r.Results) && !p.mayBeNil(fn, r.Results[idx], r, map[ssa.Value]bool{}) {
+		if idx < len(r.Results) && !p.mayBeNil(fn, RetVal(r, idx), r, map[ssa.Value]bool{}) {
 			out = append(out, r)
 		}
 	}
